@@ -310,12 +310,24 @@ theorem ingest_frame_middle (pre post : List ResSpans) (r : ResSpans) :
     (ingest (pre ++ r :: post)).docs = (ingest pre).docs ++ docsOfRes r ++ (ingest post).docs := by
   rw [ingest_frame, ingest_frame, ingest_frame, flatMap_append, flatMap_cons, append_assoc]
 
-/-- C12.6c the stored service of a span is the service named by ITS resource (the last `service.name` string
-attribute; "" when the resource is nil or names none) — for every span that does not itself carry an attribute
-called `service` (see C12.6e) -/
+/-- C12.6e (full strength since the repair of spanToJson) the stored document has the span's OWN fixed fields —
+trace id, span id, parent id, service, name, times, duration, status — whatever attributes the span carries:
+an attribute named like a fixed field cannot replace it. -/
+theorem stored_fields (sp : OSpan) (service k : String) (d : List (String × JVal))
+    (hd : spanToJson sp service = some d) (hk : k ∈ fixedKeys) :
+    getKV d k = getKV (baseDoc sp service) k := by
+  unfold spanToJson at hd
+  cases ha : attrDoc sp with
+  | none => simp [ha] at hd
+  | some m =>
+    simp only [ha, Option.map_some, Option.some.injEq] at hd
+    subst hd
+    exact getKV_setAll (baseDoc sp service) m k (by simp [baseDoc]) (by simpa [baseDoc, fixedKeys] using hk)
+
+/-- C12.6c the stored service of EVERY stored span is the service named by ITS resource (the last `service.name`
+string attribute; "" when the resource is nil or names none) -/
 theorem ingest_service_of_own_resource (rs : List ResSpans) (r : ResSpans) (sp : OSpan) (d : List (String × JVal))
-    (hr : r ∈ rs) (hsp : sp ∈ r.scopes.flatMap id) (hd : spanToJson sp (serviceOfRes r) = some d)
-    (hattr : ∀ kv ∈ sp.attrs, kv.1 ≠ "service") :
+    (hr : r ∈ rs) (hsp : sp ∈ r.scopes.flatMap id) (hd : spanToJson sp (serviceOfRes r) = some d) :
     d ∈ (ingest rs).docs ∧ getKV d "service" = some (.str (serviceOfRes r)) := by
   refine ⟨?_, ?_⟩
   · rw [ingest_frame, mem_flatMap]
@@ -323,8 +335,7 @@ theorem ingest_service_of_own_resource (rs : List ResSpans) (r : ResSpans) (sp :
     unfold docsOfRes
     rw [mem_filterMap]
     exact ⟨sp, hsp, hd⟩
-  · unfold spanToJson at hd
-    rw [foldlM_setKV_keeps "service" sp.attrs _ d hattr hd]
+  · rw [stored_fields sp _ "service" d hd (by decide)]
     rfl
 
 /-- C12.6d the counters behind the response: every span of the request is counted, and every span is either
@@ -339,10 +350,24 @@ theorem ingest_counts (rs : List ResSpans) :
   rw [e2]
   simpa [ingest] using h3
 
-/-- C12.6e the statement "the stored document has the span's own ids / service / name / times / status" is
-FALSE for spanToJson as it is: an attribute whose key equals a fixed field overwrites that field … -/
-theorem stored_fields_counterexample :
-    ¬ ∀ (sp : OSpan) (service : String) (d : List (String × JVal)), spanToJson sp service = some d →
+/-- C12.6f the stored duration of an OTLP span never exceeds its end time: a span that ends before it starts is
+stored with duration 0, so for times below 2^63 the stored record always fits the uint64 fields the views
+unmarshal into (`poison` = false) -/
+theorem otlp_record_never_poison (sp : OSpan) (service : String) (d : List (String × JVal))
+    (hd : spanToJson sp service = some d) (hend : sp.end_ < 2 ^ 63) : poison (docToRec d) = false := by
+  have h := stored_fields sp service "duration" d hd (by decide)
+  have hv : getKV (baseDoc sp service) "duration" = some (.num (durationOf sp)) := rfl
+  rw [hv] at h
+  have hle : durationOf sp ≤ sp.end_ := by unfold durationOf; split <;> omega
+  unfold poison docToRec numField
+  simp only [h, Int.toNat_natCast, storedNum]
+  rw [if_pos (by omega)]
+  simp only [ge_iff_le, decide_eq_false_iff_not, Nat.not_le]
+  omega
+
+/-- BEFORE the repairs (`spanToJsonOld`): an attribute whose key equals a fixed field replaced that field … -/
+theorem stored_fields_old_counterexample :
+    ¬ ∀ (sp : OSpan) (service : String) (d : List (String × JVal)), spanToJsonOld sp service = some d →
         getKV d "service" = some (.str service) ∧ getKV d "status" = some (.str (statusName sp.status)) := by
   intro h
   have := h { trace := "ab", sid := "01", pid := "", name := "op", start := 5, end_ := 9, status := some 2, attrs := [("status", .str "paid"), ("service", .str "billing")] } "checkout"
@@ -351,11 +376,24 @@ theorem stored_fields_counterexample :
     (by decide)
   exact absurd this.1 (by decide)
 
-/-- … and TRUE for every field that no attribute of the span is named after (decidable guard). -/
-theorem stored_fields_partial (sp : OSpan) (service k : String) (d : List (String × JVal))
-    (hd : spanToJson sp service = some d) (hguard : ∀ kv ∈ sp.attrs, kv.1 ≠ k) :
-    getKV d k = getKV (baseDoc sp service) k :=
+/-- … the old code kept only the fields that no attribute was named after … -/
+theorem stored_fields_old_partial (sp : OSpan) (service k : String) (d : List (String × JVal))
+    (hd : spanToJsonOld sp service = some d) (hguard : ∀ kv ∈ sp.attrs, kv.1 ≠ k) :
+    getKV d k = getKV (baseDocOld sp service) k :=
   foldlM_setKV_keeps k sp.attrs _ d hguard hd
+
+/-- … the old unsigned difference wrapped for a span that ends before it starts (2^64 − 10 here; stored as
+float64 it comes back as 2^64, which no uint64 field can take) … -/
+theorem duration_old_wraps :
+    getKV (baseDocOld { trace := "ab", sid := "01", pid := "", name := "op", start := 1000, end_ := 990, status := none, attrs := [] } "s")
+      "duration" = some (.num (2 ^ 64 - 10)) := by decide
+
+/-- … and a KeyValue without AnyValue made the old conversion panic, while it is now an attribute without value
+and the span is stored -/
+theorem no_value_attribute_is_stored :
+    spanPanicsOld { trace := "ab", sid := "01", pid := "", name := "op", start := 5, end_ := 9, status := none, attrs := [("k", .noValue)] } = true ∧
+    (spanToJson { trace := "ab", sid := "01", pid := "", name := "op", start := 5, end_ := 9, status := none, attrs := [("k", .noValue)] } "s").isSome = true := by
+  constructor <;> decide
 
 /-! ## 6. result paging -/
 
@@ -417,42 +455,35 @@ theorem red_collects_all (P : Nat) (hP : 0 < P) (recs : List Rec) (h : recs.any 
   rw [h, pageLoop_all _ P hP false recs [], foldl_snoc]
   simp
 
-/-! ## 7. trace listing (first page) -/
+/-! ## 7. trace listing -/
 
-/-- C12.8 whenever the listing is produced: no trace is listed twice, every listed trace has records, and
-every row is what `searchRow` computes for that trace -/
-theorem search_lists_each_trace_once (recs : List Rec) (rows : List TraceRow) (h : search recs = .ok rows) :
-    (rows.map (·.trace)).Nodup ∧
-    ∀ row ∈ rows, (∃ r ∈ recs, r.trace = row.trace) ∧ searchRow recs row.trace = .ok (some row) := by
-  unfold search at h
-  simp only [] at h
-  split at h
-  · cases h
-  · split at h
-    · cases h
-    · rename_i rows' hrows
-      simp only [SearchOut.ok.injEq] at h
-      subst h
-      obtain ⟨h1, h2⟩ := searchRows_sound hrows
-      refine ⟨h1.nodup (traceIds_nodup recs), ?_⟩
-      intro row hrow
-      refine ⟨?_, h2 row hrow⟩
-      have : row.trace ∈ traceIds recs := h1.subset (mem_map.2 ⟨row, hrow, rfl⟩)
-      exact mem_traceIds.1 this
+/-- C12.8 (full strength since GetUniqueTraceIds orders the group-by buckets) the pages PARTITION the listing:
+pages 1 … k, each the rows of the next 50 trace ids, put one after the other are exactly the whole listing, as
+soon as 50·k reaches the number of trace ids — for every number of traces. -/
+theorem search_pages_partition (recs : List Rec) (k : Nat) (hk : (traceIds recs).length ≤ tracePageLimit * k) :
+    (List.range k).flatMap (fun i => searchPage recs (i + 1)) = searchAll recs := by
+  unfold searchPage pageIds searchAll
+  have := chunks_flatten tracePageLimit k (traceIds recs) hk
+  conv => rhs; rw [← this]
+  rw [filterMap_flatMap]
+  simp
 
-/-- C12.8b … and no trace that has a row is left out -/
-theorem search_complete (recs : List Rec) (rows : List TraceRow) (h : search recs = .ok rows)
-    (r : Rec) (hr : r ∈ recs) (row : TraceRow) (hrow : searchRow recs r.trace = .ok (some row)) : row ∈ rows := by
-  unfold search at h
-  simp only [] at h
-  split at h
-  · cases h
-  · split at h
-    · cases h
-    · rename_i rows' hrows
-      simp only [SearchOut.ok.injEq] at h
-      subst h
-      exact searchRows_complete hrows r.trace (mem_traceIds.2 ⟨r, hr, rfl⟩) row hrow
+/-- C12.8b in the whole listing no trace is listed twice, every listed trace has records, and every row is what
+`searchRow` computes for that trace; no trace that has a row is left out -/
+theorem search_lists_each_trace_once (recs : List Rec) :
+    ((searchAll recs).map (·.trace)).Nodup ∧
+    (∀ row ∈ searchAll recs, (∃ r ∈ recs, r.trace = row.trace) ∧ searchRow recs row.trace = some row) ∧
+    (∀ r ∈ recs, ∀ row, searchRow recs r.trace = some row → row ∈ searchAll recs) := by
+  obtain ⟨h1, h2⟩ := filterMap_searchRow_sound recs (traceIds recs)
+  refine ⟨h1.nodup (traceIds_nodup recs), ?_, ?_⟩
+  · intro row hrow
+    refine ⟨?_, h2 row hrow⟩
+    have : row.trace ∈ traceIds recs := h1.subset (mem_map.2 ⟨row, hrow, rfl⟩)
+    exact mem_traceIds.1 this
+  · intro r hr row hrow
+    unfold searchAll
+    rw [mem_filterMap]
+    exact ⟨r.trace, mem_traceIds.2 ⟨r, hr, rfl⟩, hrow⟩
 
 /-- C12.8c the row of a trace with exactly one root record (parent id present and empty) whose times lie in
 the window: root service, root operation, number of records, number of records with status ERROR -/
@@ -460,20 +491,42 @@ theorem searchRow_single_root (recs : List Rec) (t : String) (root : Rec) (sv nm
     (hroots : (ofTrace recs t).filter (fun r => r.pid == some "") = [root])
     (hsv : root.svc = some sv) (hnm : root.name = some nm)
     (hw1 : winStart * 1000000 ≤ f64 root.start) (hw2 : f64 root.end_ ≤ winEnd * 1000000) :
-    searchRow recs t = .ok (some { trace := t, svc := sv, op := nm, count := (ofTrace recs t).length, errs := ((ofTrace recs t).filter (fun r => r.status == some "STATUS_CODE_ERROR")).length, start := f64 root.start, end_ := f64 root.end_ }) := by
-  unfold searchRow
+    searchRow recs t = some { trace := t, svc := sv, op := nm, count := (ofTrace recs t).length, errs := ((ofTrace recs t).filter (fun r => r.status == some "STATUS_CODE_ERROR")).length, start := f64 root.start, end_ := f64 root.end_ } := by
+  unfold searchRow searchRowOld
   simp only [hroots]
   have hwin : (decide (winStart * 1000000 > f64 root.start) || decide (winEnd * 1000000 < f64 root.end_)) = false := by
     simp only [Bool.or_eq_false_iff, decide_eq_false_iff_not]
     omega
   simp [distinctNat, distinctStr, uniq, hsv, hnm, hwin]
 
-/-! ## 8. dependency graph: one response page -/
+/-- C12.8d BEFORE the repair one trace whose two root spans start at different times made the whole page answer
+500 (`none`), hiding the well-formed trace next to it; now that trace alone is left out -/
+theorem search_old_one_trace_failed_the_page :
+    searchPageOld
+      [{ trace := "ab01", sid := "01", pid := some "", svc := some "a", name := some "x", start := 1700000000000000000, end_ := 1700000000000000000, dur := 0, status := some "ok" },
+       { trace := "ab02", sid := "02", pid := some "", svc := some "a", name := some "y", start := 1700000000000000000, end_ := 1700000000000000000, dur := 0, status := some "ok" },
+       { trace := "ab02", sid := "03", pid := some "", svc := some "a", name := some "y", start := 1700000000000001024, end_ := 1700000000000000000, dur := 0, status := some "ok" }] 1 = none ∧
+    ((searchPage
+      [{ trace := "ab01", sid := "01", pid := some "", svc := some "a", name := some "x", start := 1700000000000000000, end_ := 1700000000000000000, dur := 0, status := some "ok" },
+       { trace := "ab02", sid := "02", pid := some "", svc := some "a", name := some "y", start := 1700000000000000000, end_ := 1700000000000000000, dur := 0, status := some "ok" },
+       { trace := "ab02", sid := "03", pid := some "", svc := some "a", name := some "y", start := 1700000000000001024, end_ := 1700000000000000000, dur := 0, status := some "ok" }] 1).map (·.trace)) = ["ab01"] := by
+  constructor <;> decide
 
-/-- C12.9 the statement "the graph is computed from every span of the window" is FALSE for a handler that
-sends ONE request and reads ONE page (MakeTracesDependancyGraph: default page of 100 records) … -/
-theorem dep_first_page_counterexample :
-    ¬ ∀ (page : Nat) (recs : List Rec), 0 < page → depFirstPage page recs = depOf recs := by
+/-! ## 8. dependency graph -/
+
+/-- C12.9 (full strength since MakeTracesDependancyGraph pages through the result) the graph is the fold over
+EVERY span of the window, for every page size and every number of spans -/
+theorem dep_collects_all (P : Nat) (hP : 0 < P) (recs : List Rec) : dep P recs = depOf recs := by
+  unfold dep
+  cases h : recs.any poison with
+  | true => simp [depOf, h]
+  | false =>
+    rw [if_neg (by simp), pageLoop_all _ P hP false recs [], foldl_snoc]
+    simp
+
+/-- BEFORE the repair (ONE request, ONE page of 100 records) the statement was false … -/
+theorem dep_first_page_old_counterexample :
+    ¬ ∀ (page : Nat) (recs : List Rec), 0 < page → depFirstPageOld page recs = depOf recs := by
   intro h
   have := h 1
     [{ trace := "ab", sid := "02", pid := some "01", svc := some "b", name := some "x", start := 1, end_ := 2, dur := 1, status := some "ok" },
@@ -481,14 +534,14 @@ theorem dep_first_page_counterexample :
     (by decide)
   exact absurd this (by decide)
 
-/-- … and TRUE when the window holds at most one page of records (what `dep` answers) -/
-theorem dep_first_page_partial (page : Nat) (recs : List Rec) (h : recs.length ≤ page) :
-    depFirstPage page recs = depOf recs := by
-  unfold depFirstPage
+/-- … and true only when the window held at most one page of records -/
+theorem dep_first_page_old_partial (page : Nat) (recs : List Rec) (h : recs.length ≤ page) :
+    depFirstPageOld page recs = depOf recs := by
+  unfold depFirstPageOld
   rw [take_of_length_le h]
 
-/-- the guard is satisfiable and the model answers there -/
-example : dep [{ trace := "ab", sid := "02", pid := some "01", svc := some "b", name := some "x", start := 1, end_ := 2, dur := 1, status := some "ok" },
+/-- the model answers -/
+example : dep 1 [{ trace := "ab", sid := "02", pid := some "01", svc := some "b", name := some "x", start := 1, end_ := 2, dur := 1, status := some "ok" },
      { trace := "ab", sid := "01", pid := some "", svc := some "a", name := some "y", start := 0, end_ := 3, dur := 3, status := some "ok" }]
     = .ok [(("a", "b"), 1)] := by decide
 
